@@ -38,7 +38,7 @@ theorem alloc_adiv {a : Alloc} {T} (req : Nat) (h : AInv a T) (hc : CfgDiv a.cfg
   · intro b b' k idx _ _ _ hq ht
     obtain ⟨_, f2, f3, f4, f5⟩ := tryAlloc_fields ht
     exact hq.of_static (by simp [f2]) (by simp [f3]) (by simp [f4]) (by simp [Block.commit, f5])
-  · intro blocks p n size hqb _ _ hp _
+  · intro blocks p n size hqb _ _ hp _ _
     have hg := poolGran_pos h.wf p
     have hmult : a.cfg.blockSize ∣ idealBlockSize { a with blocks := blocks } p size := by
       have hlast : a.cfg.blockSize ∣ (match (({ a with blocks := blocks } : Alloc).poolBlocks p).getLast? with
